@@ -75,4 +75,46 @@ def streams(tier, seed):
 
 P = StreamProperty("C05", [IndexOracle, ConsistencyOracle], streams, RULE, ("C05",),
                    lambda ops: len(ops[-1].get("sel", [])) >= 2 or any(k in s for _, s in ops[-1].get("sel", []) for k in ("range", "flt", "slice")))
-run, replay = P.run, P.replay
+replay = P.replay
+
+
+def dtype_independence(tier, seed):
+    """the coordinate array's dtype must not matter: an axis built from integers (np.arange) selects the same positions as the
+    same axis in floats, for float / tuple / range selectors with fractional targets, reading and writing"""
+    import numpy as np
+    from common import dnp
+    rng = random.Random(seed * 7919 + 105)
+    fails, n_eval = [], 0
+    for n, desc in ((10, False), (7, True)):
+        ci = np.arange(n)[::-1].copy() if desc else np.arange(n)
+        vals = np.arange(n * 3, dtype=float).reshape(n, 3)
+        targets = [-1.3, 0.4, 0.6, 2.5, 2.6, 3.49, 6.8, 7.7, n - 0.6, n + 2.2]
+        sels = [t for t in targets] + [(t,) for t in targets] + [(a, b) for a in targets[1:8:2] for b in targets[2:9:2]]
+        for sel in sels:
+            outs = []
+            for dt in (np.int64, np.int32, float):
+                d = dnp.DNPData(vals.copy(), ["x", "y"], [ci.astype(dt), np.arange(3.0)])
+                w = d.copy()
+                try:
+                    r = d["x", sel]
+                    w["x", sel] = -1.0
+                    outs.append((list(np.asarray(r.coords["x"], dtype=float)), np.asarray(r.values).tolist(), np.asarray(w.values).tolist()))
+                except Exception as e:  # noqa: BLE001
+                    outs.append(("raise", type(e).__name__))
+            n_eval += 1
+            if any(o != outs[-1] for o in outs[:-1]):
+                key = "C05:selection-depends-on-coord-dtype:" + ("range" if isinstance(sel, tuple) and len(sel) == 2 else "tuple1" if isinstance(sel, tuple) else "float")
+                fails.append({"key": key, "clause": key, "ops": [{"n": n, "descending": desc, "selector": list(sel) if isinstance(sel, tuple) else sel}]})
+    return fails, n_eval
+
+
+def run(tier, seed, escalate=False):
+    res = P.run(tier, seed, escalate)
+    fails, n_eval = dtype_independence(tier, seed)
+    seen = {f["key"] for f in res["impl_failures"]}
+    for f in fails:
+        if f["key"] not in seen:
+            seen.add(f["key"]); res["impl_failures"].append(f)
+    res["evaluations"] += n_eval
+    res["distribution"]["coord_dtype_cases"] = n_eval
+    return res
